@@ -12,7 +12,7 @@ and otherwise returns what the hand-written total function returns.  Both the to
 C01–C17) and the panic model (C19) are thereby tied to the current text of engine.rs / zobrist.rs.
 -/
 namespace Arimaa.RsAgree
-open Arimaa Arimaa.Gen Arimaa.Gen.Rs Arimaa.Rt
+open Arimaa Arimaa.Gen Arimaa.Gen.RsBase Arimaa.Rt
 
 theorem usizeMax_eq : Rt.usizeMax = Arimaa.usizeMax := rfl
 
